@@ -115,6 +115,11 @@ J('C.getenv_s', ['C05', 'C08'], 'C', 'contracts/os_getenv_s.spec.c',
   assumptions=['getenv / secure_getenv return NULL or a NUL-terminated string in an object of its own; strlen returns its length (ghost bodies in contracts/os_getenv_s.spec.c)',
                'the restated _strcpy_s_chk contract (valid call => exact copy, slack zeroed, EOK, no handler) is the one job A.strcpy_s.arena proves for the real function; correspondence of the two texts by inspection'])
 
+J('A.strispassword_s', ['C02', 'C10', 'C05', 'C01'], 'A', 'contracts/extstr/strispassword_s.spec.c',
+  sources=['src/extstr/strispassword_s.c'], overlays={'src/extstr/strispassword_s.c': 'contracts/extstr/strispassword_s.loops'},
+  enforce='_strispassword_s_chk', functions=['_strispassword_s_chk'], sliced=False, timeout=600,
+  note='exact-fit object of symbolic size (up to 4 x the password limit), dmax any 64-bit value, object size known or unknown; the only job that reaches the scan loop (B.q.strispassword_s cannot: dmax >= 6 is demanded, its operands have <= 5 elements)')
+
 for fn, nm in ((1, 'timingsafe_bcmp'), (2, 'timingsafe_memcmp')):
     src = 'src/extmem/%s.c' % nm
     J('A.%s' % nm, ['C19', 'C02', 'C05', 'C01'], 'A', 'contracts/extmem/timingsafe.spec.c',
